@@ -7,6 +7,12 @@ Model of `crates/printer/src/util.rs`: `trim_line_terminator`,
 namespace RgVerif.Replace
 open RgVerif.Matcher RgVerif.Interp
 
+/-- `MAX_LOOK_AHEAD = 128` (crates/printer/src/lib.rs): how far beyond the range the multi-line branch of
+`replace_all` / `find_iter_at_in_context` lets the matcher look. The non-multi-line branch modelled below
+does not use it; it is recorded (and re-checked against the source on every run) because the proofs are about
+that branch only as long as the two branches stay what they are. -/
+def maxLookAhead : Nat := 128
+
 /-- Line terminator configuration of the searcher: a single byte, or CRLF. -/
 inductive LineTerm where
   | byte (b : Nat)
